@@ -253,6 +253,10 @@ class Subprocess(object):
             self.change_state(ProcessStates.BACKOFF)
             options.close_parent_pipes(self.pipes)
             options.close_child_pipes(self.pipes)
+            # the descriptors are closed; forget them so that a later reuse
+            # of their numbers is not attributed to this process
+            self.pipes = {}
+            self.dispatchers = {}
             return
 
         if pid != 0:
